@@ -39,6 +39,9 @@ fn keyframe_sets() -> Vec<Vec<Kf>> {
         vec![kf(0.25, Some(16.0), None, Some(1)), kf(0.75, None, Some(1000), Some(2))],
         vec![kf(0.5, Some(-8.0), Some(64), Some(6)), kf(0.5, Some(200.0), None, None)],
         vec![kf(0.0, Some(1.0), None, Some(7)), kf(1.0, Some(-1.0), Some(-31), None)],
+        // extreme but finite values (the statement only asks for finite values)
+        vec![kf(0.0, Some(-f32::MAX), Some(i32::MIN), None), kf(1.0, Some(f32::MAX), Some(2147483520), None)],
+        vec![kf(0.25, Some(3.0e38), Some(-2147483520), Some(1)), kf(0.75, Some(-3.0e38), Some(2147483520), None)],
     ]
 }
 
@@ -137,7 +140,7 @@ fn run_case(c: &Timing, ci: usize, kfs: &[Kf], ki: usize) -> Out {
                 }
                 if !finite_p(&p) {
                     out.problems.push((format!("non-finite:{which}:{repname}"), format!("update({t}) produced {:?}", p), casej(which, Some(t))));
-                } else if p.a < lo - 1e-3 || p.a > hi + 1e-3 {
+                } else if p.a < lo - 1e-3 - lo.abs() * 1e-6 || p.a > hi + 1e-3 + hi.abs() * 1e-6 {
                     out.problems.push((format!("out-of-keyframe-range:{which}:{repname}"), format!("update({t}) produced a={} outside [{lo},{hi}]", p.a), casej(which, Some(t))));
                 }
             }
@@ -287,7 +290,7 @@ pub fn run(run: Run) -> ! {
     cov.insert("traces_validated_against_impl".into(), json!(debug_compared));
     cov.insert("evaluations".into(), json!(acc.ops));
     cov.insert("distinct_nontrivial".into(), json!(items.len()));
-    cov.insert("rule".into(), json!("cycle in {MIN_POSITIVE,1e-30,1e-3,1,1e3,1e30} x delay in {0,1e-30,1,1e30} x repeat in {None,Times 0,1,2^24,2^24+1,u32::MAX-1,u32::MAX,Infinite} x reverse, restricted to configurations whose total duration is <= f32::MAX (validity bound), x 6 keyframe sets; operations: build, duration, delay, cycle_duration, repeat, start_with, update (plain and after start_with) at {0, MIN_POSITIVE, delay, every phase boundary +-0,1,2 ulp incl. the last cycles, 1e30, f32::MAX}; animator build, advance(dt) for dt in {0,2^-9,1,1e10,1e19,1e20,f32::MAX} each twice, is_ended, set_state; every operation under catch_unwind; oracle: no panic, finite values, values within the keyframe range, and identical result digests from a debug and a release build of the same harness; states = (configuration, keyframe set) cases, transitions = operations"));
+    cov.insert("rule".into(), json!("cycle in {MIN_POSITIVE,1e-30,1e-3,1,1e3,1e30} x delay in {0,1e-30,1,1e30} x repeat in {None,Times 0,1,2^24,2^24+1,u32::MAX-1,u32::MAX,Infinite} x reverse, restricted to configurations whose total duration is <= f32::MAX (validity bound), x 8 keyframe sets (two with extreme finite values: +-f32::MAX, +-3e38, i32::MIN..2147483520); operations: build, duration, delay, cycle_duration, repeat, start_with, update (plain and after start_with) at {0, MIN_POSITIVE, delay, every phase boundary +-0,1,2 ulp incl. the last cycles, 1e30, f32::MAX}; animator build, advance(dt) for dt in {0,2^-9,1,1e10,1e19,1e20,f32::MAX} each twice, is_ended, set_state; every operation under catch_unwind; oracle: no panic, finite values, values within the keyframe range, and identical result digests from a debug and a release build of the same harness; states = (configuration, keyframe set) cases, transitions = operations"));
     cov.insert("exhaustive".into(), json!(true));
     cov.insert("debug_release_cases_compared".into(), json!(debug_compared));
     cov.insert("samples".into(), json!([{"timing": cfgs[cfgs.len() / 2].to_json(), "times": times(&cfgs[cfgs.len() / 2]).iter().map(|t| fj(*t)).collect::<Vec<_>>(), "advances": ADVANCES.iter().map(|t| fj(*t)).collect::<Vec<_>>()}]));
